@@ -592,9 +592,19 @@ def main(argv):
     if seen_keys:
         return 1
     if res.inconclusive:
-        for s in res.inconclusive:
-            log("INCONCLUSIVE: " + s[:2000])
-        return 2
+        # a case whose only trouble is a wall-clock limit (loaded machine) is inconclusive for that case; it is listed in
+        # the evidence and does not turn the whole run inconclusive unless there are more than a few of them
+        def case_level(s):
+            return "no result within" in s or "wall-clock watchdog fired twice" in s
+        hard = [s for s in res.inconclusive if not case_level(s)]
+        soft = [s for s in res.inconclusive if case_level(s)]
+        limit = max(3, ev["coverage"]["evaluations"] // 100)
+        if hard or len(soft) > limit:
+            for s in res.inconclusive:
+                log("INCONCLUSIVE: " + s[:2000])
+            return 2
+        for s in soft:
+            log("INCONCLUSIVE-CASE (wall-clock limit, listed in the evidence, not a verdict): " + s[:600])
     if unmet and not a.only_run:
         log("INCONCLUSIVE: observation thresholds not met: " + ", ".join(unmet))
         return 2
